@@ -144,6 +144,26 @@ pub trait DiagramRules<E: Edge, N: InnerNode<E>, T> {
     fn cofactor(tag: E::Tag, node: &N, n: usize) -> Borrowed<'_, E> {
         Self::cofactors(tag, node).nth(n).expect("out of range")
     }
+
+    /// Get the `n`-th cofactor of `edge` with respect to a level that the
+    /// diagram rooted at `edge` skips (i.e., the root node of `edge` is below
+    /// that level and no node for the level is present on the path)
+    ///
+    /// This is used when swapping adjacent levels. In most decision diagram
+    /// types, a skipped level means that the function does not depend on the
+    /// respective variable, so every cofactor is `edge` itself (this is the
+    /// default implementation). With zero-suppression, a skipped level means
+    /// that the variable is absent from every set, so the `hi` cofactor is the
+    /// empty family and only the `lo` cofactor is `edge`.
+    #[inline]
+    fn skipped_level_cofactor<M: Manager<Edge = E, InnerNode = N, Terminal = T>>(
+        manager: &M,
+        edge: &E,
+        n: usize,
+    ) -> E {
+        let _ = n;
+        manager.clone_edge(edge)
+    }
 }
 
 /// Result of the attempt to create a new node
